@@ -3,6 +3,7 @@
 first=$1; last=$2; tier=${3:-quick}; shift 3 2>/dev/null
 props="$@"; [ -z "$props" ] && props="C01 C03 C04 C05 C06 C07 C09 C11 C12 C14 C16 C17 C18"
 cd "$(dirname "$0")/.."
+[ -n "$VP_RUN_REPO" ] && export VERIF_REPO=$VP_RUN_REPO
 mkdir -p soak
 for seed in $(seq $first $last); do
   for p in $props; do
